@@ -17,3 +17,9 @@ type (
 var G = core.G
 
 func gates(g ...Gate) []Gate { return g }
+
+type (
+	IMPL = core.IMPL
+	FLAG = core.FLAG
+	CONE = core.CONE
+)
